@@ -41,10 +41,21 @@ ROOT = '$R'
 
 # ------------------------------------------------------------------ project (ground truth) and its rendering
 
+def home_of(proj):
+    """routine name -> module name or None"""
+    h = {}
+    for _, kind, name, rs in proj['units']:
+        for i in rs:
+            h[i] = name if kind == 'mod' else None
+    return h
+
+
 def gen_project(rng):
     """C22 call DAG / placement, restricted to what C25 models: no unresolved externals, no typedef imports, no
     internal procedures; module variables are imported from header modules and (rarely) from kernel modules"""
     proj = c22.gen_project(rng, cyc_bias=0.0)
+    for u in proj['units']:         # C25 keeps routine names (not indices) in the units, so that names can be decorated
+        u[3] = [f'r{i}' for i in u[3]]
     nf = max(u[0] for u in proj['units']) + 1
     if rng.random() < 0.7:
         # one top-level program unit per file (the usual layout of the code bases Loki is applied to)
@@ -58,11 +69,11 @@ def gen_project(rng):
                 nf += 1
     kmods = [u[2] for u in proj['units'] if u[1] == 'mod' and u[3]]
     hmods = [u[2] for u in proj['units'] if u[1] == 'mod' and not u[3]]
-    home = c22.home_of(proj)
+    home = home_of(proj)
     fof = {}
     for f, kind, name, rs in proj['units']:
         for i in rs:
-            fof[f'r{i}'] = f
+            fof[i] = f
     kvar = rng.random() < 0.25
     for r in proj['routines']:
         r['ext'], r['xmod'], r['uset'], r['member'] = [], False, [], False
@@ -78,7 +89,7 @@ def gen_project(rng):
 
 def gen_config(rng, proj):
     names = [r['name'] for r in proj['routines']]
-    home = c22.home_of(proj)
+    home = home_of(proj)
     cfg = dict(strict=rng.random() < 0.5, dmode='idem', ddisable=[], dignore=[], routines=[], seeds=['r0'])
     if rng.random() < 0.2 and len(names) > 2:
         cfg['seeds'].append(rng.choice(names[1:]))
@@ -126,7 +137,7 @@ def intfb_text(name):
 
 
 def write_project(proj, root):
-    home = c22.home_of(proj)
+    home = home_of(proj)
     rmap = {r['name']: r for r in proj['routines']}
     files = {}
     src = Path(root) / 'src'
@@ -138,20 +149,20 @@ def write_project(proj, root):
             if rs:
                 txt.append('contains')
                 for i in rs:
-                    txt.append(routine_text(rmap[f'r{i}'], home, proj['cinc']))
+                    txt.append(routine_text(rmap[i], home, proj['cinc']))
             txt.append(f'end module {name}')
             files.setdefault(f, []).append('\n'.join(txt) + '\n')
         else:
             for i in rs:
-                files.setdefault(f, []).append(routine_text(rmap[f'r{i}'], home, proj['cinc']))
+                files.setdefault(f, []).append(routine_text(rmap[i], home, proj['cinc']))
                 if proj['cinc']:
-                    (src / f'r{i}.intfb.h').write_text(intfb_text(f'r{i}'))
+                    (src / f'{i}.intfb.h').write_text(intfb_text(i))
     for f, parts in files.items():
         (src / f'f{f}.F90').write_text('\n'.join(parts))
 
 
 def project_sexp(proj, cfg):
-    units = [[u[0], A(u[1]), ostr(u[2]), [A(f'r{i}') for i in u[3]]] for u in proj['units']]
+    units = [[u[0], A(u[1]), ostr(u[2]), [A(i) for i in u[3]]] for u in proj['units']]
     rts = [[A(r['name']), [A(c) for c in r['calls']], [A(c) for c in r['usev']]] for r in proj['routines']]
     ents = []
     for name, ent in cfg['routines']:
@@ -162,14 +173,14 @@ def project_sexp(proj, cfg):
 
 
 def project_from_sexp(px):
-    units = [[int(str(u[0])), str(u[1]), dstr(u[2]), [int(str(r)[1:]) for r in u[3]]] for u in field(px, 'units')]
+    units = [[int(str(u[0])), str(u[1]), dstr(u[2]), [str(r) for r in u[3]]] for u in field(px, 'units')]
     for u in units:
         if u[1] not in ('mod', 'free') or (u[1] == 'mod') != (u[2] is not None) or (u[1] == 'free' and len(u[3]) != 1):
             raise ValueError('malformed unit')
     routines = [dict(name=str(r[0]), calls=[str(c) for c in r[1]], usev=[str(c) for c in r[2]], ext=[], uset=[],
                      xmod=False, member=False) for r in field(px, 'routines')]
     names = [r['name'] for r in routines]
-    placed = sorted(f'r{i}' for u in units for i in u[3])
+    placed = sorted(i for u in units for i in u[3])
     if sorted(names) != placed or len(set(names)) != len(names):
         raise ValueError('routines and units disagree')
     mods = {u[2] for u in units if u[1] == 'mod'}
@@ -684,7 +695,7 @@ def split_layout(proj):
 
 
 def no_driver_callee(proj, cfg):
-    home = c22.home_of(proj)
+    home = home_of(proj)
     drivers = driver_names(cfg)
     called = {c for r in proj['routines'] for c in r['calls']}
     mixed = any(home[d] is not None and any(home[r['name']] == home[d] and r['name'] not in drivers
@@ -713,7 +724,7 @@ def classify(proj, cfg, ops, plan):
     `Covered` in C25/Model.lean (splitLayout ~ shared-file, noDriverCallee ~ driver-callee, depLast ~ dep-not-last, isSub ~
     dup-subgraph, noDupAfterRem ~ plan-removal-not-inherited); the other classes lie inside `Covered`: there the model follows
     the defect (correspondence) and the theorem needs `LocalClosed` of the result, which fails (Findings/C25.lean)"""
-    home = c22.home_of(proj)
+    home = home_of(proj)
     drivers = driver_names(cfg)
     cls = []
     called = {c for r in proj['routines'] for c in r['calls']}
@@ -742,8 +753,8 @@ def classify(proj, cfg, ops, plan):
             continue
         reach.add(x)
         todo += rmap[x]['calls']
-    inactive = any(kind == 'mod' and len(rs) > 1 and (any(f'r{i}' not in reach for i in rs) or 'rem' in kinds)
-                   and any(f'r{i}' in reach for i in rs) for _, kind, _, rs in proj['units'])
+    inactive = any(kind == 'mod' and len(rs) > 1 and (any(i not in reach for i in rs) or 'rem' in kinds)
+                   and any(i in reach for i in rs) for _, kind, _, rs in proj['units'])
     if not plan and inactive and any(k == 'wrap' and 'dep' not in kinds[i + 1:] for i, k in enumerate(kinds)):
         cls.append('inactive-sibling')
     if not plan and any(o[0] == 'dup' and home.get(o[1]) is not None and any(
@@ -773,7 +784,7 @@ def twin(req, plan):
 
 def compilable(proj):
     """the generated project itself compiles file by file: no program unit uses a module defined later in its own file"""
-    home = c22.home_of(proj)
+    home = home_of(proj)
     rmap = {r['name']: r for r in proj['routines']}
     byfile = {}
     for u in proj['units']:
@@ -782,7 +793,7 @@ def compilable(proj):
         for i, u in enumerate(us):
             later = {v[2] for v in us[i + 1:] if v[1] == 'mod'}
             for k in u[3]:
-                r = rmap[f'r{k}']
+                r = rmap[k]
                 used = {home[c] for c in r['calls'] if home.get(c)} | set(r['usev'])
                 if used & later:
                     return False
